@@ -268,7 +268,7 @@ pub fn run_shard<P: Property>(p: &P, tier: Tier, seed: u64, shard: usize, shards
                         r.evaluations += 1;
                         failed.set(true);
                         *first_fail_case.borrow_mut() = Some(serde_json::to_value(&case).unwrap());
-                        if f.kind != "hang" {
+                        if f.kind != "hang" && f.kind != "compile-hang" {
                             crate::judge::FAST_REJECT.store(true, std::sync::atomic::Ordering::Relaxed);
                         } else {
                             crate::judge::HANG_SHRINK.store(true, std::sync::atomic::Ordering::Relaxed);
